@@ -3,6 +3,7 @@
 -/
 import SV.Persist.Proofs
 import SV.GenProofs.Persist
+import SV.FactsProofs.Batch
 namespace SV.Props.C08
 open SV SV.Persist
 
@@ -33,5 +34,11 @@ theorem source_flush_test_is_the_models (p : P) :
     p.bump = (if Gen.dbNoFlushNeeded p.sizeBatch p.maxBatch then { p with sizeBatch := p.sizeBatch + 1 }
               else ({ p with sizeBatch := p.sizeBatch + 1 } : P).flush) ∧
     Gen.serialNoFlushNeeded p.sizeBatch p.maxBatch = Gen.dbNoFlushNeeded p.sizeBatch p.maxBatch := GenProofs.bump_eq p
+
+/-- (regenerated fact) the pending batch's Put / Delete / Reset perform unconditionally exactly the model's three effects each -/
+theorem batch_operations_have_the_models_effects :
+    Facts.batchPutEffects = Facts.modelPutEffects ∧ Facts.batchDeleteEffects = Facts.modelDeleteEffects ∧
+    Facts.batchResetEffects = Facts.modelResetEffects :=
+  ⟨Facts.batch_put_effects, Facts.batch_delete_effects, Facts.batch_reset_effects⟩
 
 end SV.Props.C08
